@@ -9,6 +9,12 @@ pub mod ir;
 pub mod opt;
 pub mod runtime;
 
+/// Verification hooks: re-export of crate-private types for external checkers.
+#[cfg(feature = "verif-hooks")]
+pub mod verif {
+    pub use crate::smallvec::{SmallVec, SmallVecIntoIter};
+}
+
 use std::{fmt::Debug, hash::Hash};
 
 /// Kind of error that might be encountered during the parsing of a Brainfuck
